@@ -343,3 +343,18 @@ def check_closed(snapshot, probs):
             if r is None or getattr(r, 'vid', None) not in lookup:
                 probs.add('closure:dangling-reference', 'watch %r result -> id %r not in the table' % (
                     w.expression, getattr(r, 'vid', None)))
+
+
+def eval_in_frame(expr, frame):
+    """Reference meaning of "the expression evaluated in the paused frame": as if it were written at that place - also
+    the parts of it that open a scope of their own (generator expressions, lambdas) see the frame's variables.
+    Built independently of eval()'s two-dictionary form: a function whose parameters are the frame's locals."""
+    loc = {k: v for k, v in frame.f_locals.items() if k.isidentifier()}
+    try:
+        src = 'def __vf_expr(%s):\n    return (%s\n)' % (', '.join(loc), expr.strip())
+        code = compile(src, '<frame expression>', 'exec')
+    except SyntaxError:
+        return eval(expr, frame.f_globals, frame.f_locals)
+    ns = dict(frame.f_globals)
+    exec(code, ns)
+    return ns['__vf_expr'](**loc)
